@@ -351,7 +351,7 @@ def r7_shapes(rep, facts, rid='C12/R7'):
                   f'`{d}` can build a Datetime with ' + '; '.join(f'date={names[s[0]]}, time={names[s[1]]}, offset={names[s[2]]}' for s in bad) +
                   ': not one of the four TOML kinds (e.g. a date directly followed by an offset is accepted; printing it gives text the other parser refuses, '
                   'and Datetime::type_name reaches unreachable!)', f'{facts.rel(b.get("file"))}:{line}')
-    for tag, pred in (('toml_edit::parser', lambda d: d.startswith('toml_edit::parser::') or 'From<toml_datetime::datetime::Time>' in d),
+    for tag, pred in (('toml_edit::parser', lambda d: d.startswith('toml_edit::parser::') or 'From<toml_datetime::datetime::Time>' in d or 'From<toml_datetime::datetime::Date>' in d),
                       ('FromStr', lambda d: 'core::str::traits::FromStr' in d)):
         got = set()
         for d, kind, line, shapes, paths in sites:
